@@ -454,6 +454,9 @@ def oracle_discriminated(ctx: vlib.Ctx, n: int):
 # oracle 2: threads making the first call at once
 # ---------------------------------------------------------------------------
 
+TIMED_OUT = ["INCONCLUSIVE", "timed-out", ""]
+
+
 def threaded_trial(src, ops, nthreads):
     """fresh family; thread i evaluates ops[i % len(ops)] after a common barrier. Returns list of outcomes."""
     mod = F.load(src, "th")
@@ -462,9 +465,9 @@ def threaded_trial(src, ops, nthreads):
 
     def work(i):
         try:
-            bar.wait(timeout=20)
+            bar.wait(timeout=300)
         except threading.BrokenBarrierError:
-            out[i] = ["EXC", "BrokenBarrier", ""]
+            out[i] = TIMED_OUT
             return
         out[i] = F.run_op(mod, ops[i % len(ops)])
     ths = [threading.Thread(target=work, args=(i,)) for i in range(nthreads)]
@@ -472,10 +475,11 @@ def threaded_trial(src, ops, nthreads):
         for t in ths:
             t.start()
         for t in ths:
-            t.join(60)
+            t.join(900)
     finally:
         F.unload(mod)
-    return out
+    # a thread that did not get through in time (loaded machine) says nothing about the schedule
+    return [TIMED_OUT if o is None else o for o in out]
 
 
 def oracle_threads(ctx: vlib.Ctx, nfam: int, reps: int):
@@ -510,6 +514,9 @@ def oracle_threads(ctx: vlib.Ctx, nfam: int, reps: int):
                 sys.setswitchinterval(old)
                 ctx.count(("threads", case["mode"], nth, fast, len(ops)))
                 ctx.hist("threads", f"n={nth}")
+                if TIMED_OUT in outs:
+                    ctx.hist("threads", "inconclusive (timed out)")
+                    continue
                 for i, o in enumerate(outs):
                     e = exps[i % len(ops)]
                     if o != e:
@@ -549,16 +556,16 @@ def run(ctx: vlib.Ctx):
                 phases[name] = round(phases.get(name, 0) + time.time() - t0, 1)
         phase("theorems", c14_coq.theorems, ctx)
         cases = []
-        phase("histories", oracle_histories, ctx, ctx.budget(70, 1300), keep_cases=cases)
+        phase("histories", oracle_histories, ctx, ctx.budget(60, 1300), keep_cases=cases)
         phase("histories-spec", oracle_histories, ctx, ctx.budget(60, 500), keep_cases=cases, focus="spec")
-        phase("histories-kwargs", oracle_histories, ctx, ctx.budget(60, 500), keep_cases=cases, focus="kwargs")
+        phase("histories-kwargs", oracle_histories, ctx, ctx.budget(50, 500), keep_cases=cases, focus="kwargs")
         tie_ok = phase("correspondence", c14_coq.correspondence, ctx, cases)
         if not tie_ok or ctx.unshown:
             # a broken obligation / tie: search harder where the disagreement lives
             phase("search-harder", oracle_histories, ctx, ctx.budget(150, 600), focus="spec")
             phase("search-harder", oracle_histories, ctx, ctx.budget(100, 400), focus="kwargs")
         phase("scenarios", oracle_scenarios, ctx)
-        phase("discriminated", oracle_discriminated, ctx, ctx.budget(90, 600))
+        phase("discriminated", oracle_discriminated, ctx, ctx.budget(75, 600))
         phase("threads", oracle_threads, ctx, ctx.budget(16, 150), ctx.budget(6, 12))
     finally:
         sys.setrecursionlimit(old)
@@ -597,7 +604,7 @@ def replay(rep: dict) -> int:
                     sys.setswitchinterval(rep.get("switchinterval", oldsw) if r % 2 else 1e-6)
                     outs = threaded_trial(rep["source"], rep["ops"], rep["threads"])
                     for i, o in enumerate(outs):
-                        if o != exps[i % len(exps)]:
+                        if o != TIMED_OUT and o != exps[i % len(exps)]:
                             print(f"trial {r} thread {i}: {short(o, 300)} expected {short(exps[i % len(exps)], 300)}")
                             print("REPRODUCED")
                             return 1
